@@ -422,3 +422,122 @@ def _(eng, ci, a, sp):
         eng.drop_value(f.f[0].f[0])
         f.f[0] = none()
     return r
+
+
+# ---------------------------------------------------------------------------------------- std::process::Command
+def _text(eng, v):
+    from .core import REGISTRY_as_ref
+    b = REGISTRY_as_ref(eng, v, 'OsStr')
+    if all(isinstance(x, int) for x in b.items):
+        return bytes(b.items).decode('latin-1')
+    return repr(b)
+
+
+@S('Command::new')
+def _(eng, ci, a, sp):
+    return Struct('Command', [_text(eng, a[0]), [], []])
+
+
+@S('Command::arg')
+def _(eng, ci, a, sp):
+    deref_all(a[0]).f[1].append(_text(eng, a[1]))
+    return a[0]
+
+
+@S('Command::args')
+def _(eng, ci, a, sp):
+    from .collections import iterate
+    c = deref_all(a[0])
+    for x in iterate(eng, a[1]):
+        c.f[1].append(_text(eng, x))
+    return a[0]
+
+
+@S('Command::env')
+def _(eng, ci, a, sp):
+    deref_all(a[0]).f[2].append((_text(eng, a[1]), _text(eng, a[2])))
+    return a[0]
+
+
+@S('Command::env_remove')
+def _(eng, ci, a, sp):
+    deref_all(a[0]).f[2].append((_text(eng, a[1]), None))
+    return a[0]
+
+
+@S('Command::current_dir')
+def _(eng, ci, a, sp):
+    deref_all(a[0]).f[2].append(('<cwd>', _text(eng, a[1])))
+    return a[0]
+
+
+@S('Command::spawn')
+def _(eng, ci, a, sp):
+    c = deref_all(a[0])
+    return eng.world.spawn(eng, c.f[0], list(c.f[1]), list(c.f[2]), sp)
+
+
+@S('Child::wait')
+def _(eng, ci, a, sp):
+    return eng.world.child_wait(eng, deref_all(a[0]), sp)
+
+
+@S('ExitStatus::success')
+def _(eng, ci, a, sp):
+    st = deref_all(a[0]).data
+    return st == 0 if isinstance(st, int) else st == z3.BitVecVal(0, 32)
+
+
+@S('ExitStatus::code')
+def _(eng, ci, a, sp):
+    return some(deref_all(a[0]).data)
+
+
+@S('args_os', 'env::args_os', 'std::env::args_os')
+def _(eng, ci, a, sp):
+    return Struct('SeqIter', [Vec([Vec(list(x), 'OsString') for x in eng.world.argv(eng)]), 0, 'val'])
+
+
+@S('<SeqIter as ExactSizeIterator>::len', 'ExactSizeIterator::len')
+def _(eng, ci, a, sp):
+    it = deref_all(a[0])
+    if isinstance(it, Struct) and it.name == 'SeqIter':
+        return len(it.f[0].items) - it.f[1]
+    raise Unsupported('ExactSizeIterator::len on %r' % (it,))
+
+
+@S('var_os', 'env::var_os', 'std::env::var_os')
+def _(eng, ci, a, sp):
+    return eng.world.getenv(eng, _text(eng, a[0]), os_string=True)
+
+
+@S('var', 'env::var', 'std::env::var')
+def _(eng, ci, a, sp):
+    return eng.world.getenv(eng, _text(eng, a[0]), os_string=False)
+
+
+@S('set_var', 'env::set_var', 'std::env::set_var')
+def _(eng, ci, a, sp):
+    eng.world.setenv(eng, _text(eng, a[0]), _text(eng, a[1]))
+    return UNIT
+
+
+@S('remove_var', 'env::remove_var', 'std::env::remove_var')
+def _(eng, ci, a, sp):
+    eng.world.setenv(eng, _text(eng, a[0]), None)
+    return UNIT
+
+
+@S('stderr', 'io::stderr', 'std::io::stderr')
+def _(eng, ci, a, sp):
+    return Opaque('Stderr')
+
+
+@S('stdout', 'io::stdout', 'std::io::stdout')
+def _(eng, ci, a, sp):
+    return Opaque('Stdout')
+
+
+@S('__private::format_err', 'anyhow::__private::format_err', 'Error::msg', 'anyhow::Error::msg', 'Error::new', 'anyhow::Error::new')
+def _(eng, ci, a, sp):
+    return Opaque('anyhow::Error', a[0])
